@@ -94,6 +94,7 @@ theorem err_spec : ∀ (τ : Ty) (j : PV) (p : Path) (e : PyExc), parseValue τ 
     cases j <;> simp only [parseValue, reduceCtorEq] at h <;> exact mismatch_spec (by rfl) h
   | .bool, j, p, e, h => by
     cases j <;> simp only [parseValue, reduceCtorEq] at h <;> exact mismatch_spec (by rfl) h
+  | .never, j, p, e, h => by simp only [parseValue] at h; exact mismatch_spec (by rfl) h
   | .listAny, j, p, e, h => by
     cases j <;> simp only [parseValue, reduceCtorEq] at h <;> exact mismatch_spec (by rfl) h
   | .tupleAny, j, p, e, h => by
@@ -264,6 +265,7 @@ theorem headOk_false_error : ∀ (τ : Ty) (j : PV), headOk τ j = false → ∀
     | _ => simp [headOk] at h <;> exact ⟨_, by simp only [parseValue]; rfl⟩
   | .str, j, h, p => by cases j <;> simp [headOk] at h <;> exact ⟨_, by simp only [parseValue]; rfl⟩
   | .bool, j, h, p => by cases j <;> simp [headOk] at h <;> exact ⟨_, by simp only [parseValue]; rfl⟩
+  | .never, j, h, p => ⟨_, by simp only [parseValue]; rfl⟩
   | .listAny, j, h, p => by cases j <;> simp [headOk] at h <;> exact ⟨_, by simp only [parseValue]; rfl⟩
   | .tupleAny, j, h, p => by cases j <;> simp [headOk] at h <;> exact ⟨_, by simp only [parseValue]; rfl⟩
   | .dictAny, j, h, p => by cases j <;> simp [headOk] at h <;> exact ⟨_, by simp only [parseValue]; rfl⟩
